@@ -198,6 +198,22 @@ def query(m, i):
         return {"ev": "query", "out": type(e).__name__, "i": i, "nb": [], "n": 0, "bv2": 0}
 
 
+def share(m, sub, kind, keep, keepalive):
+    """Hand the atom OBJECTS at positions `sub` (1-based) to another container that does not copy them
+    (copy_atoms left at its default); the container is kept alive in `keepalive` or dropped at once."""
+    import molli.chem as mc
+    atoms = list(m.atoms)
+    try:
+        other = getattr(mc, kind)([atoms[i - 1] for i in sub])
+        if keep:
+            keepalive.append(other)
+        del other
+        out = "ok"
+    except Exception as e:                       # noqa: BLE001
+        out = type(e).__name__
+    return {"ev": "share", "out": out, "sub": sorted(sub), "kind": kind, "keep": bool(keep)}
+
+
 def hints_of(m):
     return [int(a.attrib["__implicit_hydrogens"]) if "__implicit_hydrogens" in a.attrib else -1 for a in m.atoms]
 
@@ -298,9 +314,11 @@ class HAddAdapter:
         self.m = None
         self.events = []
         self.newh = []
+        self.keepalive = []
 
     def cleanup(self):
         self.m = None
+        self.keepalive = []
 
     def apply(self, act):
         a = act["act"]
@@ -325,6 +343,12 @@ class HAddAdapter:
             self.newh = []
             return {"out": ev["out"], "nb": sorted(ev["nb"]), "n": ev["n"] if len(ev["nb"]) == ev["n"] else -1,
                     "bv2": ev["bv2"]}
+        if a == "share":
+            ev = share(self.m, act["sub"], act["kind"], act["keep"], self.keepalive)
+            self.events.append(ev)
+            self.snap = snapshot(self.m)             # nothing may have changed: observe() re-reads the molecule
+            self.newh = []
+            return {"out": ev["out"]}
         if a == "rewire":                           # del_bond + connect: the number of bonds stays
             try:
                 b = self.m.bonds[act["k"] - 1]
